@@ -281,14 +281,14 @@ def check_tailmove(ctx, prog):
                 # element size: sizeof(T) factor in the count
                 szs = [w['v'] for w in walk_expr(e['a'][2]) if w.get('k') == 'int' and w.get('sizeof') is not None]
                 esz = szs[0] if szs else None
-                cnt = linear(f, e['a'][2], None)
+                cnt = linear(f, q.expand(f, e['a'][2], stop=nvars), None)
                 role = f['n'] + ':tail move covers exactly the old tail'
                 if cnt is None or not esz:
                     ctx.undecided('R-TAILMOVE', f['pq'], role, fwhere(f, e['l']), 'move count `%s` is not linear with a sizeof factor' % pe(e['a'][2]))
                     continue
                 cnt = dict((kk, vv / esz) for kk, vv in cnt.items())
                 # source offset in elements
-                src = strip(e['a'][1])
+                src = strip(q.expand(f, e['a'][1], stop=nvars))
                 off = None
                 x = src
                 while x.get('k') == 'cast':
